@@ -38,12 +38,12 @@ Theorem C09_split_each_branch_once : forall {A} (s : strategy) (blocks : list na
   is_data (fst (fst x)) = true -> s <> SAll -> 1 <= nth b blocks 0 ->
   exists r0, r0 < nth b blocks 0 /\ forall r, addressed s blocks b r x = true <-> r = r0.
 Proof. exact @end_data_once_per_block. Qed.
-Theorem C09_split_branch_sequence : forall {A} (s : strategy) (m : batch_mode) (blocks : list nat)
-    (l : list (elem A * N * N)) (hash rnd : N) (b r : nat),
+Theorem C09_split_branch_sequence : forall {A} (clock : nat -> N) (t0 : N) (s : strategy) (m : batch_mode)
+    (blocks : list nat) (l : list (elem A * N * N)) (hash rnd : N) (b r : nat),
   b < length blocks -> r < nth b blocks 0 ->
   (forall x, In x l -> fst (fst x) <> Terminate) ->
-  match m with BFixed n => 1 <= n | BSingle => True end ->
-  received (run (end_machine s m blocks) (l ++ [(Terminate, hash, rnd)])) b r
+  match m with BFixed n => 1 <= n | BAdaptive n _ => 1 <= n | BSingle => True end ->
+  received (run (end_machine clock t0 s m blocks) (l ++ [(Terminate, hash, rnd)])) b r
   = map (fun x => fst (fst x)) (filter (addressed s blocks b r) l) ++ [Terminate].
 Proof. exact @end_link_sequence. Qed.
 
